@@ -130,6 +130,7 @@ def run_cases(run: lib.Run, audit: dict, scale: int = 1):
             cmd["rel"] = rel
         cmds.append(cmd)
     answers = proto.run_driver(cmds)
+    through_guard(run, batch, answers)
     for (cond, env, label, out), ans in zip(batch, answers):
         run.count(f"{'cell' if '|' in label else 'tree'}:{out if isinstance(out, str) else ('true' if out else 'false')}")
         run.case([cond, env], out is True or out is False, {"cond": cond, "env": env, "impl": out} if label.startswith("random") else None)
@@ -142,12 +143,48 @@ def run_cases(run: lib.Run, audit: dict, scale: int = 1):
             run.spec_failures.append({"label": label, "cond": cond, "env": env, "impl": out, "spec": "evaluation raised"})
 
 
+def through_guard(run: lib.Run, batch: list, answers: list) -> None:
+    """the same cells through the engine (compiled path): `Decision.reason` must be matched / condition_mismatch /
+    condition_type_mismatch exactly as the operator table says — whatever the compiler does with literals beforehand"""
+    import json as _json
+    from datetime import datetime as _dt
+    picked = 0
+    for k, ((cond, env, label, out), ans) in enumerate(zip(batch, answers)):
+        if "|" not in label or not isinstance(cond, dict):
+            continue
+        op = next(iter(cond))
+        timeop = op in ("before", "after", "between")
+        if not (timeop or k % 11 == 0):
+            continue
+        try:
+            _json.dumps(cond)          # the policy document must be JSON (datetime literals cannot be written in one)
+        except TypeError:
+            continue
+        m = ans["model"]
+        if m not in (True, False, "mismatch"):
+            continue
+        ctx = dict(env.get("context") or {})
+        if any(isinstance(v, float) and v != v for v in ctx.values()):
+            continue
+        pol = {"algorithm": "deny-overrides", "rules": [{"id": "c", "effect": "permit", "actions": ["read"], "resource": {"type": "doc"}, "condition": cond}]}
+        req = {"sid": "u", "roles": [], "sattrs": {}, "action": "read", "rtype": "doc", "rid": "1", "rattrs": {}, "ctx": ctx}
+        got = real.run_guard(pol, req, {"strict": bool(env.get("__strict_types__"))})
+        want = {True: ("permit", "matched"), False: ("deny", "condition_mismatch"), "mismatch": ("deny", "condition_type_mismatch")}[m]
+        picked += 1
+        run.count("cell-through-guard")
+        have = (got["ok"]["effect"], got["ok"]["reason"]) if "ok" in got else ("raised", got.get("raised"))
+        if have != want:
+            run.disagreements.append({"label": label + "|guard", "cond": cond, "env": env, "impl": list(have), "model": list(want)})
+    run.evaluations += picked
+
+
 def check(run: lib.Run, audit: dict) -> int:
     run.rule = ("exhaustive cells: 15 operators × 33 left values × 33 right values (incl. a 12-element list and lists with a nested list / object member) (every JSON kind, near-duplicates 1/'1'/1.0/True, "
                 "NaN/Inf/10^400, ISO strings, epochs, naive/aware datetimes) × lax/strict × literal/attribute placement "
                 "(quick: attribute placements subsampled 1/5); random nested trees depth ≤4 over all 19 operators incl. hostile values; and/or/not "
                 "trees mixing rel leaves (table-answered checker) with true/false/ill-typed comparisons (evaluation order is observable); "
-                "malformed/multi-key documents. non-trivial = the condition produced a Boolean (not a mismatch)")
+                "malformed/multi-key documents; every time-operator cell and 1/11 of the others also as a one-rule policy through Guard (reason "
+                "matched / condition_mismatch / condition_type_mismatch). non-trivial = the condition produced a Boolean (not a mismatch)")
     run.exhaustive = True
     run.assumptions = ["attribute-path segments do not name Python attributes of builtin values (getattr fallback; DESIGN §2.1 ii)",
                        "NaN does not occur inside containers compared with ==/in (CPython identity shortcut; DESIGN §2.1 iii)",
